@@ -589,9 +589,13 @@ fn c14(tier: &str, thorough: bool) -> i32 {
             // writer sequences
             let mut wseqs: Vec<Vec<WOp>> = ALL_WOPS.iter().map(|w| vec![*w]).collect();
             if thorough {
-                for a in ALL_WOPS {
-                    for b in ALL_WOPS {
-                        wseqs.push(vec![a, b]);
+                // all ordered pairs of the four ops that change length / cross the buffer (V4; V3 runs single ops)
+                if v == 4 {
+                    let four = [WOp::WriteSmall, WOp::Shrink, WOp::Grow, WOp::Overflow];
+                    for a in four {
+                        for b in four {
+                            wseqs.push(vec![a, b]);
+                        }
                     }
                 }
             } else {
@@ -605,9 +609,9 @@ fn c14(tier: &str, thorough: bool) -> i32 {
                 rsets.push(vec![vec![a], vec![b]]);
             }
             if thorough {
-                for a in ALL_ROPS {
-                    for b in ALL_ROPS {
-                        rsets.push(vec![vec![a], vec![b]]);
+                for (i, a) in ALL_ROPS.iter().enumerate() {
+                    for b in &ALL_ROPS[i..] {
+                        rsets.push(vec![vec![*a], vec![*b]]);
                     }
                 }
                 rsets.push(vec![vec![ROp::Walk], vec![ROp::ReadStorage], vec![ROp::Entry]]);
@@ -625,7 +629,7 @@ fn c14(tier: &str, thorough: bool) -> i32 {
                 }
             }
             configs += cases.len() as u64;
-            let cap: u64 = if thorough { 100_000 } else { 4_000 };
+            let cap: u64 = if thorough { 10_000 } else { 4_000 };
             use rayon::prelude::*;
             // per configuration: unbounded first; if the cap is hit fall back to preemption bound 2, then 1
             let results: Vec<(u64, u64, Option<(Option<usize>, u64, usize)>)> = cases
